@@ -102,8 +102,58 @@ fn run(ctx: &Ctx) {
 
 fn ending(t: &mut Tape, dtls: bool, valid: &[u8]) -> (&'static str, Vec<u8>) {
     let hdr = if dtls { 13 } else { 5 };
-    match t.below(8) {
+    match t.below(10) {
         0 => ("nothing", vec![]),
+        8 => {
+            // a complete, well-framed record whose content is wrong in ONE place deep inside: a valid record with one payload byte changed
+            // (length fields inside messages among them)
+            let mut b = valid.to_vec();
+            if b.len() > hdr {
+                let k = hdr + t.below(b.len() - hdr);
+                b[k] ^= t.pick(&[1u8, 1, 2, 0x80, 0xff]);
+            }
+            ("one-byte-inside", b)
+        }
+        9 => {
+            // a complete handshake record holding a ClientHello that is valid up to one inner length field: cipher_suites length odd (but
+            // fitting), session id length 33, compression length 0 - decoders may class these differently from cut-short input
+            let ciphers: Vec<u16> = (0..1 + t.below(5)).map(|_| t.pick(&[0x002fu16, 0xc02f, 0x1301, 0x00ff, 0x0a0a])).collect();
+            let sid = if t.bool() { None } else { Some(t.bytes(32)) };
+            let rec = MRecord { ctype: 0x16, version: 0x0301, msgs: vec![MMsg::Hs(MHs::ClientHello { version: 0x0303, random: t.bytes(32), sid, ciphers, comp: vec![0], ext: if t.bool() { None } else { Some(vec![0, 23, 0, 0]) } })], padding: vec![] };
+            let mut b = rec.to_bytes();
+            let l = b[43] as usize;
+            let cl = 44 + l;
+            let n = u16::from_be_bytes([b[cl], b[cl + 1]]) as usize;
+            match t.below(4) {
+                0 | 1 => { let v = if t.bool() { n - 1 } else { n + 1 } as u16; b[cl] = (v >> 8) as u8; b[cl + 1] = v as u8; }
+                2 => b[43] = 33,
+                _ => b[cl + 2 + n] = 0,
+            }
+            if dtls {
+                // same content behind a DTLS record header and a DTLS handshake header (message_seq 0, unfragmented) with an empty cookie
+                let body = b[9..].to_vec();
+                let (pre, post) = body.split_at(35 + l);
+                let mut inner = pre.to_vec();
+                inner.push(0);
+                inner.extend_from_slice(post);
+                let mut e = Enc::new();
+                e.u8(0x16);
+                e.u16(0xfefd);
+                e.u16(0);
+                e.u48(3);
+                let mut h = Enc::new();
+                h.u8(1);
+                h.u24(inner.len() as u32);
+                h.u16(0);
+                h.u24(0);
+                h.u24(inner.len() as u32);
+                h.bytes(&inner);
+                e.vec(2, "rec.len", &h.buf);
+                b = e.buf;
+            }
+            ("hello-inner-length", b)
+        }
+
         7 => {
             // complete records of content types the parsers do not decode but a TLS / DTLS 1.3 peer sends: DTLS 1.3 ACK (26) with a
             // well-formed list of record numbers, connection-id records (25), a heartbeat (24)
